@@ -473,6 +473,66 @@ def search_C01(seed):
     return None
 
 
+def search_C07(seed):
+    """travelling activities entered directly with hand-made routes (empty, or between the wrong cells) for a target that
+    is not where the vehicle stands: enter() must refuse, because the route has to lead from the vehicle to the target"""
+    from nrel.hive.state.vehicle_state.dispatch_station import DispatchStation
+    from nrel.hive.state.vehicle_state.dispatch_base import DispatchBase
+    from nrel.hive.state.vehicle_state.dispatch_trip import DispatchTrip
+    rnd = random.Random(seed)
+    env = mock_env().set_reporter(Rep())
+    here, there, other = rnd.sample(CELLS, 3)
+    sim = mock_sim(vehicles=(mock_vehicle_from_geoid(vehicle_id="v0", geoid=here),), stations=(mock_station_from_geoid(station_id="s0", geoid=there),),
+                   bases=(mock_base_from_geoid(base_id="b0", geoid=there),), sim_time=SimTime(600))
+    sim = ops.add_entity(sim, mock_request_from_geoids(request_id="r0", origin=there, destination=other, departure_time=SimTime(500)))
+    route = rnd.choice([(), mock_route_from_geoids(here, other), mock_route_from_geoids(other, there)])
+    state = rnd.choice([DispatchStation.build("v0", "s0", route, mock_dcfc_charger_id()), DispatchBase.build("v0", "b0", route), DispatchTrip.build("v0", "r0", route)])
+    err, sim2 = state.enter(sim, env)
+    if err is None and sim2 is not None:
+        what = "an empty route" if not route else f"a route from {route[0].start} to {route[-1].end}"
+        return (f"{type(state).__name__}.enter accepted {what} although the vehicle stands at {here} and the target is at {there}: "
+                f"v0 is now {name(sim2.vehicles['v0'])} at {sim2.vehicles['v0'].geoid}")
+    return None
+
+
+def search_C18(seed):
+    """one plug, one vehicle charging on it, two more sent to the station one after the other (sometimes across midnight, the
+    later one with the smaller id): when the plug is freed it goes to the vehicle that joined the queue first"""
+    rnd = random.Random(seed)
+    env = mock_env().set_reporter(Rep())
+    S, far = CELLS[0], rnd.choice(CELLS[1:])
+    st = mock_station_from_geoid(station_id="s0", geoid=S, chargers=immutables.Map({mock_dcfc_charger_id(): 1}))
+    first, second = rnd.choice([("v1", "v0"), ("v0", "v1")])
+    vs = (mock_vehicle_from_geoid(vehicle_id="v2", geoid=S, soc=rnd.choice([0.9, 0.95, 0.97])),
+          mock_vehicle_from_geoid(vehicle_id="v0", geoid=far, soc=0.4), mock_vehicle_from_geoid(vehicle_id="v1", geoid=far, soc=0.4))
+    t0 = rnd.choice([600, 86400 - 180, 86400 - 60, 2 * 86400 - 120])
+    sim = mock_sim(vehicles=vs, stations=(st,), sim_time=SimTime(t0), sim_timestep_duration_seconds=60)
+    sim = apply_instructions(sim, env, (ChargeStationInstruction("v2", "s0", mock_dcfc_charger_id()),))
+    gap = rnd.randint(1, 3)
+    free_at = gap + rnd.randint(3, 6)       # the charging vehicle is sent away: the plug is released
+    joined = {}
+    for step in range(free_at + 6):
+        if step == free_at:
+            sim = apply_instructions(sim, env, (IdleInstruction("v2"),))
+        if step == 0:
+            sim = apply_instructions(sim, env, (DispatchStationInstruction(first, "s0", mock_dcfc_charger_id()),))
+        if step == gap:
+            sim = apply_instructions(sim, env, (DispatchStationInstruction(second, "s0", mock_dcfc_charger_id()),))
+        before = {v.id: name(v) for v in sim.vehicles.values()}
+        sim = perform_vehicle_state_updates(sim, env)
+        sim = ops.tick(sim)
+        for v in sim.vehicles.values():
+            if name(v) == "ChargeQueueing" and v.id not in joined:
+                joined[v.id] = step
+        for v in sim.vehicles.values():
+            if before[v.id] == "ChargeQueueing" and name(v) == "ChargingStation":
+                waiting = [w.id for w in sim.vehicles.values() if name(w) == "ChargeQueueing" and joined.get(w.id, 99) < joined.get(v.id, -1)]
+                if waiting:
+                    return (f"at {int(sim.sim_time)} s {v.id} (joined the queue in step {joined[v.id]}) got the plug while {waiting[0]} "
+                            f"(joined in step {joined[waiting[0]]}) is still waiting")
+    return None
+
+
 def search_C20(seed):
     """time_in_range on random times of day including every boundary: x is on shift iff it lies in the cyclic half-open
     interval [start, end)"""
@@ -597,11 +657,13 @@ def main():
     n = int(sys.argv[3]) if len(sys.argv) > 3 else 150
     if pid == "C01":
         n = min(n, 12)          # six processes per scenario
-    if pid in ("C01", "C06", "C09", "C11", "C13", "C14", "C15", "C19", "C20"):
+    if pid in ("C01", "C06", "C07", "C09", "C11", "C13", "C14", "C15", "C18", "C19", "C20"):
         fn_, what_ = {"C06": (search_C06, "traverse() over a random multi-link route"), "C13": (search_C13, "route() on an in-memory 4x4 street grid"),
                       "C14": (search_C14, "route() on a random in-memory street grid with mixed link speeds"),
                       "C01": (search_C01, "one scenario with tied requests, built-in Dispatcher, six interpreter hash seeds"),
                       "C09": (search_C09, "DictOps stack dictionary operations against a list model"),
+                      "C07": (search_C07, "enter() of a travelling activity with a hand-made route for a far target"),
+                      "C18": (search_C18, "one plug, one charging vehicle, two vehicles queueing one after the other"),
                       "C11": (search_C11, "_add_row_to_this_update on random price rows against a dict model"),
                       "C20": (search_C20, "time_in_range on random times of day and every boundary"),
                       "C15": (search_C15, "crank / batch runner on a fresh simulation with a stateful instruction generator"),
